@@ -12,15 +12,15 @@ from .. import hazards
 RULE = ("every strict, reserved and weak keyword of the Rust reference (editions 2015-2021; taken from the reference, not from "
         "graphql-client's table), four spellings of each that turn into the keyword only after snake_casing (`Type`, `TYPE`, `_type`, "
         "`type_`; quick: without normalization / skip variants) and 24 case-style names x name position {response field, alias, variable, input-object field, "
-        "@oneOf member, enum value} x option state {normalization none, normalization rust, skip_serializing_none (field-like positions)}: one tiny (schema, document) per combination, compiled by rustc "
+        "@oneOf member, enum value, self-referential (boxed) input-object field} x option state {normalization none, normalization rust, skip_serializing_none (field-like positions)}: one tiny (schema, document) per combination, compiled by rustc "
         "and probed with payloads / assignments whose keys are the exact GraphQL names. quick = a seeded third of the matrix, "
         "thorough = the whole matrix (exhaustive). `true`, `false`, `null` are not legal enum values in GraphQL and are skipped "
         "at that position. Non-trivial = every case; distinct by (name, position, normalization)")
 
 STYLES = ["fooBar", "foo_bar", "FooBar", "FOO_BAR", "_foo", "_Foo", "foo2bar", "a1", "x_1", "foo_", "fooBar_baz", "X", "iOS", "HTTPServer",
           "x", "aB", "AB", "a_b_c", "A_b", "fooID", "id", "ID_", "Type", "r"]
-POSITIONS = ["field", "alias", "variable", "input-field", "oneof-member", "enum-value"]
-FLOOR = {"cases": 1200, "pos:field": 150, "pos:alias": 150, "pos:variable": 150, "pos:input-field": 150, "pos:oneof-member": 150, "pos:enum-value": 140, "keyword-cases": 600, "keyword-after-snake-cases": 1000}
+POSITIONS = ["field", "alias", "variable", "input-field", "oneof-member", "enum-value", "recursive-input-field"]
+FLOOR = {"cases": 1200, "pos:field": 150, "pos:alias": 150, "pos:variable": 150, "pos:input-field": 150, "pos:oneof-member": 150, "pos:enum-value": 140, "pos:recursive-input-field": 150, "keyword-cases": 600, "keyword-after-snake-cases": 1000}
 
 
 def make(name, pos, rust, cid, rng):
@@ -64,6 +64,16 @@ def make(name, pos, rust, cid, rng):
         doc = {"operations": [{"kind": "query", "name": "Q", "vars": [{"name": "i", "type": T("In"), "default": None}], "sel": [["field", None, "x", None, None]]}], "fragments": []}
         exp = {"i": {name: 3}} if (one or rust == "skip") else {"i": {name: 3, "zz_other": None}}
         vecs.append({"id": "v0", "kind": "vars", "target": "Q", "input": {"i": {name: 3}}, "expect": {"variables": exp}})
+    elif pos == "recursive-input-field":
+        # the member refers to its own input type: it gets an indirection (Box), and must keep its wire name all the same
+        s.add("In", {"kind": "input", "one_of": False, "fields": [[name, T("In")], ["zz_other", T("String")]]})
+        s.add("Query", {"kind": "object", "implements": [], "fields": [{"name": "x", "type": T("Int"), "args": [], "deprecated": None}]})
+        doc = {"operations": [{"kind": "query", "name": "Q", "vars": [{"name": "i", "type": T("In"), "default": None}], "sel": [["field", None, "x", None, None]]}], "fragments": []}
+        if rust == "skip":
+            exp = {"i": {name: {"zz_other": "x"}}}
+        else:
+            exp = {"i": {name: {name: None, "zz_other": "x"}, "zz_other": None}}
+        vecs.append({"id": "v0", "kind": "vars", "target": "Q", "input": {"i": {name: {"zz_other": "x"}}}, "expect": {"variables": exp}})
     elif pos == "enum-value":
         s.add("E", {"kind": "enum", "values": [name, "ZZ_OTHER_VALUE"]})
         s.add("Query", {"kind": "object", "implements": [], "fields": [{"name": "e", "type": T("E"), "args": [], "deprecated": None}]})
@@ -94,7 +104,7 @@ def matrix(full=True):
                 out.append((n, pos, False))
                 if full:
                     out.append((n, pos, True))
-                    if pos in ("field", "alias", "variable", "input-field"):
+                    if pos in ("field", "alias", "variable", "input-field", "recursive-input-field"):
                         out.append((n, pos, "skip"))
     for n in names.KEYWORDS + STYLES:
         for pos in POSITIONS:
@@ -102,7 +112,7 @@ def matrix(full=True):
                 continue
             for rust in (False, True):
                 out.append((n, pos, rust))
-            if pos in ("field", "alias", "variable", "input-field"):
+            if pos in ("field", "alias", "variable", "input-field", "recursive-input-field"):
                 out.append((n, pos, "skip"))     # skip_serializing_none adds an attribute next to the rename
     return out
 
